@@ -44,6 +44,55 @@ def _col_selectors(sub: ast.Subscript):
     return out
 
 
+def _raw_def(du, d, memo, depth=0):
+    """Does definition d bind raw samples of ALL columns?  -> None (no) | True (float32, fresh) | False (raw but not converted)."""
+    if d.idx in memo:
+        return memo[d.idx]
+    memo[d.idx] = None
+    res = None
+    fresh_alloc = ("empty", "zeros", "empty_like", "zeros_like")
+    if d.kind == "assign" and d.value is not None and d.unpack_index is None and depth < 8:
+        v = d.value
+        if isinstance(v, ast.Call) and call_name(v) in fresh_alloc:
+            # a preallocated buffer: every store into it (before it is read) writes whole rows taken from raw reads
+            stores = [m for m in du.defs if m.var == d.var and m.kind == "mutate" and du.cfg.reachable(d.node, m.node)]
+            ok = bool(stores)
+            for m in stores:
+                st = m.stmt
+                if not (isinstance(st, ast.Assign) and isinstance(st.targets[0], ast.Subscript) and loc_name(st.targets[0].value) == d.var):
+                    ok = False
+                    continue
+                el = index_elts(st.targets[0])
+                if len(el) >= 2 and not all(is_full_slice(x) for x in el[1:]):
+                    ok = False
+                if _raw_expr(du, st.value, st, memo, depth + 1) is None:
+                    ok = False
+            res = ("float32" in src(v)) if ok else None
+        else:
+            r = _raw_expr(du, v, d.stmt, memo, depth + 1)
+            if r is not None and not _col_selectors(v):
+                is32 = any(call_name(c) == "astype" and c.args and "float32" in src(c.args[0]) and not (isinstance(kwarg(c, "copy"), ast.Constant) and kwarg(c, "copy").value is False)
+                           for c in find(v, ast.Call)) or any(call_name(c) == "float32" for c in find(v, ast.Call))
+                res = bool(is32 or r)
+    memo[d.idx] = res
+    return res
+
+
+def _raw_expr(du, e, at, memo, depth=0):
+    root = chain_root(e)[0]
+    if root == RAW:
+        return False
+    if root is None or "." in root or depth > 8:
+        return None
+    ds = du.strong_reaching(root, at)
+    if not ds:
+        return None
+    rs = [_raw_def(du, d, memo, depth) for d in ds]
+    if any(r is None for r in rs):
+        return None
+    return all(rs)
+
+
 def d1_single_selector(ctx):
     ctx.rule("D1", "Reader.read gathers data columns and gains with one selector = raw_channel_order[csel]; result scaled "
                    "after float32 conversion and returned")
@@ -52,7 +101,17 @@ def d1_single_selector(ctx):
     du = DefUse(fi.node)
     par = fi.module.parent
     subs = [n for n in walk_function(fi.node) if isinstance(n, ast.Subscript) and isinstance(n.ctx, ast.Load)]
-    data_sites = outermost([s for s in subs if chain_root(s)[0] == RAW], par)
+    memo = {}
+    rawloc = {}
+    for s_ in subs:
+        r0 = chain_root(s_)[0]
+        if r0 is not None and r0 != RAW and "." not in r0 and isinstance(s_.value, ast.Name):
+            rr = _raw_expr(du, s_, s_, memo)
+            if rr is not None:
+                rawloc[id(s_)] = rr
+    data_sites = outermost([s for s in subs if chain_root(s)[0] == RAW or id(s) in rawloc], par)
+    # the gather that selects columns (if the raw rows are first held in a local, it is the read of that local)
+    data_sites = [s for s in data_sites if _col_selectors(s)] or data_sites
     gain_sites = outermost([s for s in subs if chain_root(s)[0] in GAINS], par)
     if not data_sites:
         raise AnchorMissing("Reader.read: no read of self._raw found")
@@ -158,6 +217,8 @@ def d1_single_selector(ctx):
             f32 = not (isinstance(cp, ast.Constant) and cp.value is False)
         if call_name(c) == "float32":
             f32 = True
+    if not f32 and id(site) in rawloc:
+        f32 = rawloc[id(site)]
     ctx.check(f32, fi, data_stmt, data_stmt, "raw samples are converted to a fresh float32 array before scaling",
               "raw samples are not converted to float32 (with a copy) before scaling", key="float32")
     rets = returns_of(fi.node)
